@@ -36,7 +36,8 @@ def run(tier, seed):
         # and try blocks (generator feature "ext"); the last third adds user-defined methods, dictionaries and
         # the prelude's list / option methods and functions (feature "ext2")
         third = n // 3
-        feats = None if done < third else {"ext": True} if done < 2 * third else {"ext": True, "ext2": True}
+        # (half of the ext2 programs also use the prelude's string methods, feature "ext3")
+        feats = None if done < third else {"ext": True} if done < 2 * third else {"ext": True, "ext2": True, "ext3": "half"}
         if done < 2 * third:
             m = min(m, (third if done < third else 2 * third) - done)
         progs, srcs = refrun.gen_programs(seed, m, size, base=done, features=feats)
